@@ -378,6 +378,16 @@ func cmdCheck(args []string) int {
 	if groundFail > 0 {
 		violation("ground-axioms", map[string]interface{}{"obligation": "ground-axiom-tests", "error": "an assumed ground fact is false for the real library", "output": groundOut}, true)
 	}
+	// bounded stand-ins (never counted as proved)
+	var bounded []*boundedResult
+	if *prop == "C03" {
+		br := boundedAny(root, *repo)
+		bounded = append(bounded, br)
+		if !br.Passed {
+			violation("bounded:zap.Any", map[string]interface{}{"obligation": "bounded:zap.Any", "kind": "bounded", "bound": br.Bound, "output": br.Output, "test_file": br.TestFile}, strings.Contains(br.Output, "BOUNDED-VIOLATION"))
+		}
+	}
+	boundedResults = bounded
 	sort.Strings(knownLines)
 	for _, l := range knownLines {
 		fmt.Println(l)
@@ -404,6 +414,7 @@ func cmdCheck(args []string) int {
 }
 
 var groundTestsRun int
+var boundedResults []*boundedResult
 
 // runGroundTests executes /verif/ground tests named TestGround<PROP>_*.
 func runGroundTests(root, prop string) (run, failed int, out string) {
@@ -451,6 +462,9 @@ func writeEvidence(root, prop, tier string, seed int, reports []*funcReport, sam
 		"by_backend":               byBackend,
 		"assumed_contracts":        assumed,
 		"ground_axiom_tests_run":   groundTestsRun,
+	}
+	if len(boundedResults) > 0 {
+		cov["bounded"] = boundedResults
 	}
 	ev := map[string]interface{}{
 		"property_id": prop,
